@@ -160,6 +160,82 @@ func runC08(c *Ctx) {
 		}
 		return "", nontrivial
 	})
+	deepQuoteLaw(c, cfgs)
+}
+
+// deepQuoteLaw: the law at nesting depths around every power of two (per-level bookkeeping kept
+// in a machine word, a fixed array or a buffer that is compacted).  A base document is put k
+// levels deep - in block quotes, in bullet lists, in both alternately - and the result D is
+// quoted once more: Convert("> " D) = wrap(Convert D).  For pure quote nestings the inner side is
+// also anchored at the base: Convert(quote^k B) = wrap^k(Convert B).
+func deepQuoteLaw(c *Ctx, cfgs []Cfg) {
+	bases := []string{"a", "- a\n\n  b", "- a\n- b", "- a\n\n- b", "1. a\n\n   b\n2. c", "```\nx\n\ny\n```", "a\n===", "- a\n  - b\n\n    c", "<div>\nx\n</div>", "|a|b|\n|-|-|\n|c|d|", "a\n\n    code\n\nb", "- [ ] t\n\n  u", "* * *\n\n- a\n\n\n  b"}
+	depths := []int{7, 8, 9, 14, 15, 16, 17, 30, 31, 32, 33, 34, 61, 62, 63, 64, 65, 66, 100, 126, 127, 128, 129}
+	if !c.Quick() {
+		depths = append(depths, 200, 254, 255, 256, 257, 258, 300)
+	}
+	nest := func(b string, k int, mode int) []byte {
+		d := []byte(b)
+		for i := 0; i < k; i++ {
+			q := mode == 0 || (mode == 2 && i%2 == 0)
+			if q {
+				d = prefixLines(d, "> ")
+			} else {
+				// one more bullet list level: the marker on the first line, two blanks on the others
+				ls := bytes.Split(d, []byte("\n"))
+				for j := range ls {
+					if j == 0 {
+						ls[j] = append([]byte("- "), ls[j]...)
+					} else if len(ls[j]) > 0 {
+						ls[j] = append([]byte("  "), ls[j]...)
+					}
+				}
+				d = bytes.Join(ls, []byte("\n"))
+			}
+		}
+		return d
+	}
+	built := make([]mdT, len(cfgs))
+	for i, cf := range cfgs {
+		built[i] = mdT{cf, cf.Build()}
+	}
+	for bi, b := range bases {
+		for _, k := range depths {
+			for mode := 0; mode < 3; mode++ {
+				if mode != 0 && k > 130 {
+					continue // list nesting costs two columns a level
+				}
+				d := nest(b, k, mode)
+				m := built[(bi+k+mode)%len(built)]
+				inner, e1, p1 := convertSafe(m.md, d)
+				if e1 != "" || p1 != "" {
+					continue // C01's business
+				}
+				in := map[string]interface{}{"config": m.cf.Name(), "base": q([]byte(b)), "depth": k, "nesting": []string{"block quotes", "bullet lists", "alternating"}[mode], "source": q(d)}
+				if mode == 0 {
+					base, e0, p0 := convertSafe(m.md, []byte(b))
+					if e0 == "" && p0 == "" {
+						want := base
+						for i := 0; i < k; i++ {
+							want = append(append([]byte("<blockquote>\n"), want...), "</blockquote>\n"...)
+						}
+						if !bytes.Equal(inner, want) {
+							c.Violate("blockquote-law", in, fmt.Sprintf("Convert(quote^%d B) is not wrap^%d(Convert B): %s", k, k, firstDiff(inner, want)), "blockquote-law")
+						}
+					}
+				}
+				got, e2, p2 := convertSafe(m.md, prefixLines(d, "> "))
+				if e2 != "" || p2 != "" {
+					continue
+				}
+				want := append(append([]byte("<blockquote>\n"), inner...), "</blockquote>\n"...)
+				if !bytes.Equal(got, want) {
+					c.Violate("blockquote-law", in, fmt.Sprintf("depth %d: Convert(quoted) differs from the wrapped conversion: %s", k, firstDiff(got, want)), "blockquote-law")
+				}
+				c.Count("deep-nesting", fmt.Sprintf("%d/%d/%d", bi, k, mode), true)
+			}
+		}
+	}
 }
 
 // ---- C09 ----
